@@ -23,8 +23,6 @@ from forml import io
 from forml import project as prj
 from forml.io import asset, layout
 from forml.provider.registry.filesystem import posix
-from forml.provider.runner import dask
-from forml.provider.sink import null
 from forml.runtime import _service
 
 from vf.proj import serve_actors as sa
@@ -76,13 +74,13 @@ def descriptors() -> list:
     ]
 
 
-def build_registry(base: str) -> str:
-    """Publish the packages and train the generations through the real lifecycle; returns the registry path."""
+def _build(base: str) -> None:
+    """Body of ``build_registry`` (runs in a forked child)."""
+    from forml.provider.runner import dask  # pylint: disable=import-outside-toplevel
+    from forml.provider.sink import null  # pylint: disable=import-outside-toplevel
+
     base = pathlib.Path(base)
-    path = base / 'registry'
-    if (base / 'READY').exists():
-        return str(path)
-    registry = posix.Registry(path)
+    registry = posix.Registry(base / 'registry')
     for name, version, package in PACKAGES:
         root = base / f'{name}-{version}.4ml'
         pkgdir = root / package
@@ -97,6 +95,23 @@ def build_registry(base: str) -> str:
         instance = asset.Instance(name, version, None, directory)
         dask.Runner(instance, sa.Feed(const=const), null.Sink(), scheduler='synchronous').train()
     (base / 'READY').write_text('ok')
+
+
+def build_registry(base: str) -> str:
+    """Publish the packages and train the generations through the real lifecycle; returns the registry path.
+
+    The training runs in a forked child: the dask runner imports ``dask.multiprocessing``, which installs tblib's
+    pickling support process-wide (every exception becomes picklable whatever its constructor looks like). The serving
+    engine proper never imports dask, so keeping it out of the serving process keeps the engine's own error transport
+    between its encoder pool and the loop as it is in a real gateway process."""
+    path = pathlib.Path(base) / 'registry'
+    if not (pathlib.Path(base) / 'READY').exists():
+        allow_children()
+        child = multiprocessing.get_context('fork').Process(target=_build, args=(str(base),))
+        child.start()
+        child.join()
+        if child.exitcode != 0 or not (pathlib.Path(base) / 'READY').exists():
+            raise RuntimeError(f'registry build failed (exit {child.exitcode})')
     preheat(str(path))
     return str(path)
 
